@@ -107,6 +107,7 @@ class AffineTransform_from_affine_map:
     target = "snaxc.ir.dart.affine_transform.AffineTransform.from_affine_map"
     shapes = [dict(rows=r, cols=c) for r, c in RC if c <= 4]
     quick = lambda sh: sh["rows"] <= 2 and sh["cols"] <= 2
+    thorough = lambda sh: sh["rows"] * sh["cols"] <= 9  # 3x4 exceeds the path budget (30000): not covered
     total = True
 
     def args(sh, sym):
